@@ -402,6 +402,11 @@ func (g *qgen) clause(first bool, o qopts) QClause {
 			c.O.At = g.fresh("time")
 		}
 	}
+	if o.clean && len(clauseBindings(c)) == 0 && !(c.S.K == "n" && c.P.K == "p" && c.O.K == "o") {
+		// a clause without any binding that is not fully specified (constant
+		// subject and object around a predicate range) - open known finding
+		c.O.As = g.fresh("obj")
+	}
 	return c
 }
 
@@ -418,6 +423,15 @@ func (g *qgen) pattern(o qopts) []QClause {
 	if len(patternBindings(cs)) == 0 {
 		// a pattern needs at least one binding to project
 		cs[0].O.As = g.fresh("obj")
+	}
+	if o.clean {
+		// keep clear of "OPTIONAL after a prefix that binds nothing" (open finding)
+		for i, c := range cs {
+			if c.Opt && len(patternBindings(cs[:i])) == 0 {
+				cs[0].O.As = g.fresh("obj")
+				break
+			}
+		}
 	}
 	return cs
 }
